@@ -228,11 +228,82 @@ class Dec:
         except (Unknown, Raised) as e:
             raise AnalysisError("layout: parser condition does not fold in scenario: %s" % txt)
 
+    def subst_self(self, e):
+        """replace loads of already decoded fields `self.X` by their expression over the message"""
+        me = self
+        from pyfront import clone
+
+        class T(ast.NodeTransformer):
+            def visit_Attribute(self, n):
+                if isinstance(n.ctx, ast.Load) and isinstance(n.value, ast.Name) and n.value.id == "self" \
+                        and n.attr in me.fields and n.attr != "ver":
+                    return clone(me.fields[n.attr])
+                return self.generic_visit(n)
+        return ast.fix_missing_locations(T().visit(clone(e)))
+
+    def merge_if(self, st, loc):
+        """`if c: x = e1 [else: x = e2]` over locals / decoded fields only ->
+        {x: IfExp(c, e1, e2 or old x)}; keys 'self.F' denote fields"""
+        def key(t):
+            if isinstance(t, ast.Name):
+                return t.id
+            if isinstance(t, ast.Attribute) and isinstance(t.value, ast.Name) and t.value.id == "self":
+                return "self." + t.attr
+            return None
+
+        def old_of(k, env):
+            if k in env:
+                return env[k]
+            if k.startswith("self.") and k[5:] in self.fields:
+                return self.fields[k[5:]]
+            return ast.Name(id=k, ctx=ast.Load())
+
+        def assigns(stmts):
+            out = {}
+            env = dict(loc)
+            for s_ in stmts:
+                if isinstance(s_, ast.Assign) and len(s_.targets) == 1 and key(s_.targets[0]):
+                    k = key(s_.targets[0])
+                    env[k] = self.subst_self(subst_expr(s_.value, {a_: b_ for a_, b_ in env.items() if not a_.startswith("self.")}))
+                    out[k] = env[k]
+                elif isinstance(s_, ast.AugAssign) and key(s_.target):
+                    k = key(s_.target)
+                    cur = old_of(k, env)
+                    rhs = self.subst_self(subst_expr(s_.value, {a_: b_ for a_, b_ in env.items() if not a_.startswith("self.")}))
+                    env[k] = ast.BinOp(left=cur, op=s_.op, right=rhs)
+                    out[k] = env[k]
+                elif isinstance(s_, ast.Pass):
+                    pass
+                else:
+                    return None
+            return out
+        a, b = assigns(st.body), assigns(st.orelse)
+        if a is None or b is None:
+            return None
+        test = self.subst_self(subst_expr(st.test, loc))
+        out = {}
+        for k in set(a) | set(b):
+            old = old_of(k, loc)
+            v = ast.IfExp(test=test, body=a.get(k, old), orelse=b.get(k, old))
+            if k.startswith("self."):
+                self.fields[k[5:]] = ast.fix_missing_locations(v)
+            else:
+                out[k] = v
+        return out
+
     def stmt(self, st, c, loc, depth):
         if isinstance(st, ast.Expr) and isinstance(st.value, ast.Constant):
             return None
         if isinstance(st, ast.If):
-            v = self.cond(st.test, c, loc)
+            try:
+                v = self.cond(st.test, c, loc)
+            except AnalysisError:
+                # a data-dependent `if` that only (re)binds locals is kept as a conditional expression
+                merged = self.merge_if(st, loc)
+                if merged is None:
+                    raise
+                loc.update(merged)
+                return None
             return self.block(st.body if v else st.orelse, c, loc, depth)
         if isinstance(st, ast.Raise):
             raise AnalysisError("layout: valid-message scenario reaches a raise: %s" % canon(st)[:60])
@@ -315,3 +386,44 @@ def byte_ref(e, msg):
             hi = sl.slice.upper.value if isinstance(sl.slice.upper, ast.Constant) else None
             return ("unpack", fmt, lo, hi)
     return None
+
+
+def fold_field(repo, mod, expr, msg, off, size, fmt, neg=False):
+    """Exhaustive decision for a field decoded from at most two octets by an expression the
+    structural classifier does not recognise: the expression is folded for every value of the
+    octets it reads and compared with the struct decoding of the same octets.  Returns
+    (True, n) | (False, witness) | (None, reason)."""
+    refs = set()
+    for n in ast.walk(expr):
+        if isinstance(n, ast.Subscript) and canon(n.value) == msg:
+            if isinstance(n.slice, ast.Constant) and isinstance(n.slice.value, int):
+                refs.add(n.slice.value)
+            elif isinstance(n.slice, ast.Slice):
+                lo = n.slice.lower.value if isinstance(n.slice.lower, ast.Constant) else None
+                hi = n.slice.upper.value if isinstance(n.slice.upper, ast.Constant) else None
+                if lo is None or hi is None:
+                    return None, "slice bounds"
+                refs.update(range(lo, hi))
+            else:
+                return None, "index"
+        elif isinstance(n, ast.Name) and n.id == msg and not isinstance(getattr(n, "_parent", None), ast.Subscript):
+            pass
+    if not refs or not refs <= set(range(off, off + size)) or size > 2:
+        return None, "reads octets %s outside [%d, %d)" % (sorted(refs), off, off + size)
+    import itertools
+    n = 0
+    for vals in itertools.product(range(256), repeat=size):
+        buf = [0] * (off + size)
+        for i, v in enumerate(vals):
+            buf[off + i] = v
+        try:
+            got = Ev(repo, mod, env={msg: bytes(buf)}).ev(expr)
+        except (Unknown, Raised) as e:
+            return None, "does not fold: %s" % e
+        want = struct.unpack(fmt, bytes(vals))[0]
+        if neg:
+            want = -want
+        n += 1
+        if got != want:
+            return False, {"octets": list(vals), "decoded": got, "wire value": want}
+    return True, n
